@@ -73,6 +73,12 @@ impl Runner for SyncRunner {
             },
             "C" => (cache.contains_key(&TK::new(num(1), &cn)) as u8).to_string(),
             "T" => fmt_pairs(cache.iter().map(|e| (e.key().k, e.value().v)).collect()),
+            "TD" => {
+                // an iterator created now and drained after the clock moved on
+                let it = cache.iter();
+                self.clock.advance(dur_ns(toks[1].parse().expect("bad duration")));
+                fmt_pairs(it.map(|e| (e.key().k, e.value().v)).collect())
+            }
             "X" => {
                 cache.invalidate(&TK::new(num(1), &cn));
                 "-".to_string()
